@@ -13,6 +13,8 @@ WF = "qucumber/nn_states/wavefunction.py"
 PW = "qucumber/nn_states/positive_wavefunction.py"
 CW = "qucumber/nn_states/complex_wavefunction.py"
 DM = "qucumber/nn_states/density_matrix.py"
+PA = "qucumber/observables/pauli.py"
+EN = "qucumber/observables/entanglement.py"
 UN = "qucumber/utils/unitaries.py"
 CX = "qucumber/utils/cplx.py"
 
@@ -139,6 +141,24 @@ MUTANTS = [
     M("c12-no-early-return", "C12", (NS, "        if self.stop_training:  # terminate immediately if stop_training is true\n            return", "        if self.stop_training and epochs < 0:  # terminate immediately if stop_training is true\n            return")),
     M("c12-inner-break-only", "C12", (NS, "            callbacks.on_epoch_end(self, ep)\n            if self.stop_training:  # check for stop_training signal\n                break", "            callbacks.on_epoch_end(self, ep)")),
     M("c12-timer-swallows-stop", "C12", ("qucumber/callbacks/timer.py", "    def on_epoch_end(self, nn_state, epoch):\n        if nn_state.stop_training:", "    def on_epoch_end(self, nn_state, epoch):\n        if nn_state.stop_training and epoch > 1:\n            nn_state._stop_training = False\n        if nn_state.stop_training:")),
+    # ---- C08
+    M("c08-sigmay-sign", "C08", ("qucumber/observables/pauli.py", "coeff = cplx.make_complex(torch.zeros_like(coeff), coeff)", "coeff = cplx.make_complex(torch.zeros_like(coeff), -coeff)")),
+    M("c08-missing-div-n", "C08", (PA, "        res = cplx.real(numer_sum).div_(samples.shape[-1])\n        if self.absolute:\n            return res.abs_()\n        else:\n            return res\n\n\nclass SigmaY",
+                                   "        res = cplx.real(numer_sum)\n        if self.absolute:\n            return res.abs_()\n        else:\n            return res\n\n\nclass SigmaY")),
+    M("c08-flip-in-place", "C08", (PA, "            samples_ = flip_spin(i, samples.clone())  # flip the spin at site i\n\n            # compute the numerator of the importance and add it to the running sum\n            numer = nn_state.importance_sampling_numerator(samples_, samples)\n            numer_sum.add_(numer)",
+                                   "            samples_ = flip_spin(i, samples)  # flip the spin at site i\n\n            # compute the numerator of the importance and add it to the running sum\n            numer = nn_state.importance_sampling_numerator(samples_, samples)\n            numer_sum.add_(numer)")),
+    M("c08-mixed-weight-swapped", "C08", (DM, "        return self.rho(vp, v, expand=False)", "        return self.rho(v, vp, expand=False)")),
+    M("c08-periodic-perm-off-by-one", "C08", ("qucumber/observables/interactions.py", "perm_indices = [(i + self.c) % L for i in range(L)]", "perm_indices = [(i + self.c + 1) % L for i in range(L)]")),
+    M("c08-to-pm1-flipped", "C08", ("qucumber/observables/utils.py", "return samples.mul(2.0).sub(1.0)", "return samples.mul(-2.0).add(1.0)")),
+    M("c08-open-bc-drops-last-pair", "C08", ("qucumber/observables/interactions.py", "interaction_terms = samples[:, : -self.c] * samples[:, self.c :]", "interaction_terms = samples[:, : -self.c - 1] * samples[:, self.c : -1] if L > self.c + 1 else samples[:, : -self.c] * samples[:, self.c :]")),
+    M("c08-sigmaz-abs-before-mean", "C08", (PA, "        res = to_pm1(samples.mean(1))\n        if self.absolute:\n            return res.abs_()", "        res = to_pm1(samples.mean(1))\n        if self.absolute:\n            return to_pm1(samples).abs().mean(1)")),
+    # ---- C09
+    M("c09-swap-no-clone", "C09", ("qucumber/observables/entanglement.py", "samples1_, samples2_ = swap(samples1.clone(), samples2.clone(), self.A)", "samples1_, samples2_ = swap(samples1, samples2.clone(), self.A)")),
+    M("c09-weight-conj", "C09", (EN, "weight = cplx.elementwise_mult(weight1, weight2)", "weight = cplx.elementwise_mult(weight1, cplx.conj(weight2))")),
+    M("c09-A-on-rows", "C09", (EN, "    _s = s1[:, A].clone()\n    s1[:, A] = s2[:, A]\n    s2[:, A] = _s", "    if s1.shape[0] == s1.shape[1] and not isinstance(A, int):\n        _s = s1[A, :].clone()\n        s1[A, :] = s2[A, :]\n        s2[A, :] = _s\n        return s1, s2\n    _s = s1[:, A].clone()\n    s1[:, A] = s2[:, A]\n    s2[:, A] = _s")),
+    M("c09-roll-zero", "C09", (EN, "samples2 = torch.roll(samples1, 1, 0)", "samples2 = torch.roll(samples1, 0, 0)")),
+    M("c09-swap-only-one-replica", "C09", (EN, "    s2[:, A] = _s\n", "    pass\n")),
+    M("c09-roll-two-large-batches", "C09", (EN, "samples2 = torch.roll(samples1, 1, 0)", "samples2 = torch.roll(samples1, 1 if samples1.shape[0] < 3 else 2, 0)")),
 ]
 
 BENIGN = [
